@@ -255,18 +255,235 @@ def main_c01(run):
                                    "programs with recursion / call depth > 3 / str arithmetic are out of scope (counted)"])
 
 
+# ---------------------------------------------------------------- C02
+TRUTHY = [["int", 1, []], ["bool", 1, []], ["list", 0, [["int", 1, []]]], ["str", 1, []], ["int", 2, []]]
+FALSY_V = [["int", 0, []], ["bool", 0, []], ["none", 0, []], ["list", 0, []], ["str", 0, []]]
+
+
+def c02_operand(rng, shape, truth, script, nxt):
+    """Returns a tree for one operand; registers site scripts."""
+    v = rng.choice(TRUTHY if truth else FALSY_V)
+    if shape == "P":
+        return T("lit", 0, (), v=v)
+    if shape == "E":
+        k = nxt()
+        script[k] = [v]
+        return T("eff", k)
+    if shape == "S":
+        k = nxt()
+        script[k] = [v]
+        return T("do", 0, [T("setv", 0, [T("var", 1), T("eff", k)]), T("var", 1)])
+    if shape == "N":   # nested and/or whose value has the wanted truthiness
+        k1, k2 = nxt(), nxt()
+        script[k1] = [rng.choice(TRUTHY)]
+        script[k2] = [v]
+        return T("and", 0, [T("eff", k1), T("eff", k2)])
+    raise ValueError(shape)
+
+
+def main_c02(run):
+    import itertools
+    rng = random.Random(run.seed)
+    q = run.quick
+    nv = 3
+    cases = []
+    nmax = 4 if q else 5
+    shapes = "PESN"
+    wrappers = ["plain", "setv", "if", "arg"]
+    n_prog = 0
+    pyops_checked = 0
+    import hy.pyops as pyops
+    from ..hycore import topy
+    for op in ("and", "or"):
+        for n in range(0, nmax + 1):
+            combos = list(itertools.product(shapes, repeat=n))
+            for sh in combos:
+                truths = list(itertools.product([True, False], repeat=n))
+                if n >= 4 and q:
+                    truths = rng.sample(truths, 6)
+                for tr in truths:
+                    script = {}
+                    cnt = [0]
+
+                    def nxt():
+                        cnt[0] += 1
+                        return cnt[0]
+                    ops = [c02_operand(rng, s_, t_, script, nxt) for s_, t_ in zip(sh, tr)]
+                    form = T(op, 0, ops)
+                    w = wrappers[n_prog % 4]
+                    if w == "setv":
+                        t = T("do", 0, [T("setv", 0, [T("var", 2), form]), T("var", 2)])
+                    elif w == "if":
+                        t = T("do", 0, [T("if", 0, [form, T("lit", 0, (), v=["int", 1, []]),
+                                                    T("lit", 0, (), v=["int", 2, []])])])
+                    elif w == "arg":
+                        t = T("do", 0, [T("args", "list", [form, T("lit", 0, (), v=["int", 1, []])])])
+                    else:
+                        t = T("do", 0, [form])
+                    n_prog += 1
+                    base = observe(t, script, {}, {}, nv, tag="no fault")
+                    cases.append(base)
+                    if "log" in base.obs and base.obs["log"] and (not q or n_prog % 3 == 0):
+                        cases += fault_variants(rng, base, nv, 1 if q else 3)
+                    # value-only check of the pyops functions on plain operands
+                    if all(s_ == "P" for s_ in sh) and w == "plain" and "log" in base.obs:
+                        vals = [topy(o.x["v"]) for o in ops]
+                        fn = getattr(pyops, op)
+                        got = fn(*vals)
+                        from ..hycore import proj
+                        pyops_checked += 1
+                        if ["val", proj(got, {"CM": type(None)})] != base.obs["out"]:
+                            run.violation(f"pyops.{op} {vals}", f"hy.pyops.{op}_{tuple(vals)} = {got!r} differs from "
+                                          f"the macro form's value {base.obs['out']}",
+                                          {"text": base.text, "script": {}, "fault": {}, "supp": {}})
+    # higher arities by random sampling
+    for _ in range(300 if q else 30000):
+        n = rng.randint(5, 8)
+        op = rng.choice(["and", "or"])
+        script = {}
+        cnt = [0]
+
+        def nxt():
+            cnt[0] += 1
+            return cnt[0]
+        # bias toward long evaluation: mostly non-deciding operands
+        ops = [c02_operand(rng, rng.choice(shapes), (rng.random() < 0.8) == (op == "and"), script, nxt)
+               for _ in range(n)]
+        t = T("do", 0, [T(op, 0, ops)])
+        base = observe(t, script, {}, {}, nv, tag="no fault")
+        cases.append(base)
+        if "log" in base.obs and base.obs["log"]:
+            cases += fault_variants(rng, base, nv, 1)
+    run.log(f"{n_prog} enumerated and/or programs (+random arity 5..8), {len(cases)} executions")
+    us = decide(run, cases, nv, "c02", explore_small=14)
+    for c in us[len(us) // 2: len(us) // 2 + 3]:
+        run.sample(sample_of(c))
+    run.cov["pyops_value_checks"] = pyops_checked
+    return run.finish("model_checking",
+                      "and/or forms: operator x arity 0..%d x operand shape {plain, effect, statement-producing, "
+                      "nested} x truthiness assignment (exhaustive), arity 5..8 sampled; each also with a fault "
+                      "at an operand; non-trivial = at least one effect logged" % nmax,
+                      assumptions=["truthiness of the value pool as in HyCore!Truthy"])
+
+
+# ---------------------------------------------------------------- C06
+TARGET_POS = {"setv": lambda i, t: i % 2 == 0, "setx": lambda i, t: i == 0,
+              "let": lambda i, t: i < 2 * t.a and i % 2 == 0,
+              "fn": lambda i, t: i < t.a, "defn": lambda i, t: i <= t.a,
+              "for": lambda i, t: i == 0, "with": lambda i, t: i == 0,
+              "except": lambda i, t: i == 0 and t.x.get("hv"), "pat": lambda i, t: True,
+              "global": lambda i, t: True, "nonlocal": lambda i, t: True}
+
+
+def wrap_reads(t, p=1.0, rng=None):
+    """Replace variable *reads* x by (e k x) so that every reference is logged."""
+    out = []
+    for i, c in enumerate(t.ch):
+        is_target = TARGET_POS.get(t.k, lambda i, t: False)(i, t)
+        if c.k == "var" and not is_target and (rng is None or rng.random() < p) and not (t.k == "eff"):
+            out.append(T("eff", 0, [c]))
+        elif is_target:
+            out.append(c)
+        else:
+            out.append(wrap_reads(c, p, rng))
+    t.ch = out
+    return t
+
+
+def main_c06(run):
+    rng = random.Random(run.seed)
+    q = run.quick
+    nv = 4
+    forms_small = {"let", "fn", "setv", "var", "do", "call", "lit", "list"}
+    en = Enum(forms_small, nv=2, lits=(["int", 1, []],))
+    trees = []
+    for size in ([2, 3, 4, 5] if q else [2, 3, 4, 5, 6]):
+        xs = [x for x in en.exprs(size) if "let" in render(x)]
+        if len(xs) > (2500 if q else 60000):
+            xs = rng.sample(xs, 2500 if q else 60000)
+        trees += [wrap_reads(T("do", 0, [clone(x)])) for x in xs]
+    run.log(f"exhaustive let programs: {len(trees)}")
+    cases = build_cases(run, trees, rng, nv, fault_limit=0)
+    # function level: same programs inside (defn h [] ...) (h)
+    ftrees = [wrap_in_fn(t, 4) for t in (trees if not q else rng.sample(trees, min(len(trees), 1200)))]
+    cases += build_cases(run, ftrees, rng, nv, fault_limit=0)
+    us = decide(run, cases, nv, "c06-small", explore_small=10)
+    for c in us[-2:]:
+        run.sample(sample_of(c))
+    deep_forms = {"let", "let2", "fn", "defn", "setv", "setv2", "setx", "var", "do", "call", "lit", "list",
+                  "if", "for", "eff"}
+    deep = []
+    for i in range(300 if q else 8000):
+        t = wrap_reads(random_program(rng, deep_forms, rng.choice([3, 4, 5]), nv=3), 0.8, rng)
+        deep.append(t)
+        if i % 2 == 0:
+            deep.append(wrap_in_fn(t, 4))
+    cases = build_cases(run, deep, rng, nv, fault_limit=0 if q else 2)
+    run.log(f"deep let/closure programs: {len(deep)}, {len(cases)} executions")
+    us = decide(run, cases, nv, "c06-deep")
+    for c in sorted(us, key=lambda c: -len(c.obs["log"]))[:2]:
+        run.sample(sample_of(c))
+    return run.finish("model_checking",
+                      "programs over let/fn/defn/setv/setx/call with every variable read wrapped as (e k x) so "
+                      "the value seen at each reference is in the log; exhaustive by size at module and function "
+                      "level + random deep; final module globals compared; non-trivial = at least one logged read",
+                      assumptions=["defn inside a let binding the same name is not generated (hoisting corner, DESIGN 6/C06)"])
+
+
+# ---------------------------------------------------------------- C09
+def main_c09(run):
+    rng = random.Random(run.seed)
+    q = run.quick
+    nv = 4
+    forms_small = {"try", "with", "raise", "eff", "eff1", "do", "lit", "var", "setv"}
+    en = Enum(forms_small, nv=2, lits=(["int", 1, []],))
+    trees = []
+    for size in ([3, 4, 5] if q else [3, 4, 5, 6]):
+        xs = [x for x in en.exprs(size) if x.k in ("try", "with") or "(try" in render(x) or "(with" in render(x)]
+        cap = 2000 if q else 40000
+        if len(xs) > cap:
+            xs = rng.sample(xs, cap)
+        trees += [T("do", 0, [x]) for x in xs]
+    run.log(f"exhaustive try/with programs: {len(trees)}")
+    cases = build_cases(run, trees, rng, nv, fault_limit=3 if q else 8, pairs=not q)
+    us = decide(run, cases, nv, "c09-small", explore_small=9)
+    for c in us[-2:]:
+        run.sample(sample_of(c))
+    deep_forms = {"try", "with", "raise", "eff", "eff1", "do", "lit", "var", "setv", "if", "list", "fn", "call",
+                  "return", "while", "break", "for", "when"}
+    deep = []
+    for i in range(250 if q else 8000):
+        t = random_program(rng, deep_forms, rng.choice([3, 4]), nv=3)
+        if "(try" not in render(t) and "(with" not in render(t):
+            continue
+        deep.append(t)
+        if i % 3 == 0:
+            deep.append(wrap_in_fn(t, 4))
+    cases = build_cases(run, deep, rng, nv, fault_limit=4 if q else 10, pairs=True)
+    run.log(f"deep try/with programs: {len(deep)}, {len(cases)} executions")
+    us = decide(run, cases, nv, "c09-deep")
+    for c in sorted(us, key=lambda c: -len(c.obs["log"]))[:2]:
+        run.sample(sample_of(c))
+    return run.finish("model_checking",
+                      "try/except/else/finally and with programs (managers log enter/exit, may suppress); an "
+                      "exception of one of three types is injected at each effect call -- body, handler, else, "
+                      "finally, __enter__, __exit__ -- singly and in pairs; non-trivial = at least one effect",
+                      assumptions=["break/continue/return inside finally are not generated"])
+
+
 def main(run):
-    return {"C01": main_c01}[run.pid](run)
+    return {"C01": main_c01, "C02": main_c02, "C06": main_c06, "C09": main_c09}[run.pid](run)
 
 
 def replay(run, path):
     d = json.load(open(path))["replay"]
+    ns = max([0] + [int(k) for k in d["script"]]) - 2 * len(d["supp"])
     obs = run_hy(d["text"], {int(k): v for k, v in d["script"].items()},
                  {int(k): v for k, v in d["fault"].items()}, {int(k): v for k, v in d["supp"].items()},
-                 max([0] + [int(k) for k in d["script"]]) - 2 * len(d["supp"]), nv=d.get("nv", 4))
+                 ns, nv=d.get("nv", 4))
     print("program :", d["text"])
     print("observed:", obs)
     print("allowed :", d.get("allowed"))
-    ok = any(norm({"out": obs["out"], "log": obs["log"], "globals": obs["globals"]}) == norm(a)
-             for a in d.get("allowed", []))
+    ok = "log" in obs and any(norm({"out": obs["out"], "log": obs["log"], "globals": obs["globals"]}) == norm(a)
+                              for a in d.get("allowed", []))
     return 0 if ok else 1
